@@ -1,6 +1,6 @@
 """C07 — multipart forms and uploads round-trip exactly.
 
-Engine: E-ENUM.  Every list of 0..3 parts over a 24-part universe (text fields and file uploads whose names and file
+Engine: E-ENUM.  Every list of 0..3 parts over a 32-part universe (text fields and file uploads whose names and file
 names contain ';', '=', spaces, backslashes, quotes-free punctuation and non-ASCII text; empty, UTF-8 and
 delimiter-look-alike values; binary contents with every byte value, CR / LF / dash soup and partial boundaries;
 repeated names, also a text and a file part under one name) is encoded by an independent multipart encoder for
@@ -24,11 +24,11 @@ ASSUMPTIONS = ['names and file names are free of double quotes and line breaks; 
                'thresholds are large enough for the header blocks and text values (the in-memory budget is C13\'s subject)']
 MANIFEST = {
     'engines': ['E-ENUM'],
-    'technique': 'bounded-exhaustive enumeration of field lists (<=3 parts from a 24-part universe) x boundaries x thresholds x '
+    'technique': 'bounded-exhaustive enumeration of field lists (<=3 parts from a 32-part universe) x boundaries x thresholds x '
                  'framing, encoded by an independent encoder, posted to the real application and compared with a dict-of-lists model',
     'text': 'All lists of up to 2 parts in every configuration and all 3-part lists (quick: over a 10-part core) are posted; '
             'forms, files (raw file name, content type, bytes) and POST seen by the handler must equal the reference model.',
-    'note': 'Bounds: <=3 parts, 24-part universe, 5 boundary spellings, thresholds {400, default}, Content-Length / 7-byte chunks. '
+    'note': 'Bounds: <=3 parts, 32-part universe, 5 boundary spellings, thresholds {400, default}, Content-Length / 7-byte chunks / chunks of max_memfile_size bytes. '
             'Trusted: the reference encoder vf/refmp.py.',
 }
 
@@ -48,10 +48,12 @@ TEXTS += [('k\\\\v', 'two backslashes'), ('k\\v', 'one backslash')]
 
 def universe():
     u = [('t', n, v) for n, v in TEXTS] + [('f', n, fn, ct, data) for n, fn, ct, data in FILES]
+    # names and file names that begin or end in white space (inside the quotes it belongs to the name: 'a ', ' a' and 'a' are three fields)
+    u += [('t', 'a ', 'name with a trailing blank'), ('t', ' a', 'v'), ('f', 'f ', ' pad.txt ', 'text/plain', b'p'), ('t', 'a\t', 'tab')]
     return u
 
 
-CORE = [0, 1, 3, 5, 9, 12, 13, 15, 20, 21, 24, 25]
+CORE = [0, 1, 3, 5, 9, 12, 13, 15, 20, 21, 24, 25, 28, 30]
 
 
 def encode(parts, boundary):
@@ -110,7 +112,7 @@ def shards(tier, seed):
 
 def bounds(tier, seed):
     return {'parts': len(universe()), 'max_parts': 3, 'triples_over': '10-part core' if tier == 'quick' else 'whole universe',
-            'boundaries': [b for b, q in BOUNDARIES], 'thresholds': [400, 102400], 'framing': ['content-length', 'chunked(7)']}
+            'boundaries': [b for b, q in BOUNDARIES], 'thresholds': [400, 102400], 'framing': ['content-length', 'chunked(7)', 'chunked(max_memfile_size)']}
 
 
 FLOORS = {'posts': 3000, 'repeated_names': 300, 'text_and_file_same_name': 20, 'spilled_to_disk': 100, 'quoted_boundary': 100}
@@ -156,7 +158,9 @@ def post_once(om, parts, boundary, quoted, M, framing):
     b = f'"{boundary}"' if quoted else boundary
     ctype = 'multipart/form-data; boundary=' + b
     if framing == 'chunked':
-        pieces = [body[i:i + 7] for i in range(0, len(body), 7)]
+        # 7-byte chunks; bodies of even length above the threshold travel in chunks of exactly the threshold (the decoder's read block)
+        step = M if (len(body) > M and len(body) % 2 == 0) else 7
+        pieces = [body[i:i + step] for i in range(0, len(body), step)]
         env = wsgi.environ('POST', '/u', body=refmp.chunked_encode(pieces), ctype=ctype, chunked=True)
     else:
         env = wsgi.environ('POST', '/u', body=body, ctype=ctype)
